@@ -1,6 +1,7 @@
 (* C15 — proofs about Handler.v and Frame.v *)
 From ZV Require Import Prelude GoSem Paging PagingProofs Handler Frame.
 From ZV.gen Require Import Consts.
+From ZV.gen Require Pure.
 Open Scope Z_scope.
 Ltac Zify.zify_post_hook ::= Z.div_mod_to_equations.
 
@@ -34,7 +35,7 @@ Qed.
 Lemma store_lower_range H ht a : 1 <= ht <= H -> H < two63 -> 0 <= a < alloc_limit ->
   mom_store_range H ht false a = Some (lower_hashes ht a).
 Proof.
-  unfold alloc_limit, two63. intros Hht HH Ha. unfold mom_store_range, mom_range.
+  unfold alloc_limit, two63. intros Hht HH Ha. unfold mom_store_range. rewrite mom_range_eq. unfold mom_range_hand.
   rewrite (u64_small (ht + 1)) by (unfold two64; lia).
   assert (Hfrom : (if ht + 1 <=? a then 1 else u64 (ht + 1 - a)) = Z.max 1 (ht + 1 - a)).
   { destruct (ht + 1 <=? a) eqn:E; [lia|]. rewrite u64_small by (unfold two64; lia). lia. }
@@ -60,37 +61,58 @@ Lemma by_height_inside H x : 1 <= x <= H -> by_height H x = Some x.
 Proof. intros. unfold by_height, exists_at. replace ((1 <=? x) && (x <=? H)) with true by lia. reflexivity. Qed.
 
 (* ------------------------------------------------------------ GetBlocks *)
-Lemma gather_blocks_spec H items : forall n acc l,
+Lemma gather_blocks_spec bc H items : forall n bytes acc l tot,
   0 <= n -> Z.of_nat (length acc) = n -> n < MaxBlockFetch ->
-  gather_blocks H items n acc = OBlocks l -> Z.of_nat (length l) <= MaxBlockFetch.
+  gather_blocks bc H items n bytes acc = OBlocks l tot -> Z.of_nat (length l) <= MaxBlockFetch.
 Proof.
-  unfold MaxBlockFetch. induction items as [|i items IH]; intros n acc l Hn Hacc Hlt Hg; cbn [gather_blocks] in Hg.
+  unfold MaxBlockFetch. induction items as [|i items IH]; intros n bytes acc l tot Hn Hacc Hlt Hg; cbn [gather_blocks] in Hg.
   - assert (El : l = rev acc) by congruence. subst l. rewrite rev_length. lia.
-  - destruct i as [h| |].
+  - destruct i as [h sz| |].
     + destruct (by_height H h) as [x|].
-      * unfold MaxBlockFetch in Hg. destruct (128 <=? n + 1) eqn:E.
-        -- assert (El : l = rev (x :: acc)) by congruence. subst l. rewrite rev_length. cbn [length]. lia.
-        -- apply (IH (n + 1) (x :: acc)); try lia. cbn [length]. lia. exact Hg.
-      * apply (IH n acc); auto.
-    + apply (IH n acc); auto.
+      * destruct (bc && (blocks_byte_limit <? bytes + sz)).
+        -- assert (El : l = rev acc) by congruence. subst l. rewrite rev_length. lia.
+        -- unfold MaxBlockFetch in Hg. destruct (128 <=? n + 1) eqn:E.
+           ++ assert (El : l = rev (x :: acc)) by congruence. subst l. rewrite rev_length. cbn [length]. lia.
+           ++ apply (IH (n + 1) (bytes + sz) (x :: acc) l tot); try lia. cbn [length]. lia. exact Hg.
+      * apply (IH n bytes acc l tot); auto.
+    + apply (IH n bytes acc l tot); auto.
     + discriminate.
 Qed.
 
-Lemma gather_blocks_no_panic H items : forall n acc, gather_blocks H items n acc <> OPanic.
+(* with the byte cap: the encoded sizes of the momentums of a reply sum up to at most the limit *)
+Lemma gather_blocks_bytes H items : forall n bytes acc l tot,
+  Forall (wf_item H) items -> 0 <= bytes <= blocks_byte_limit ->
+  gather_blocks true H items n bytes acc = OBlocks l tot -> bytes <= tot <= blocks_byte_limit.
 Proof.
-  induction items as [|i items IH]; intros n acc; cbn [gather_blocks]; [discriminate|].
-  destruct i as [h| |]; try apply IH; try discriminate.
-  destruct (by_height H h); [|apply IH]. destruct (MaxBlockFetch <=? n + 1); [discriminate|apply IH].
+  induction items as [|i items IH]; intros n bytes acc l tot Hwf Hb Hg; cbn [gather_blocks] in Hg.
+  - inversion Hg; subst. lia.
+  - inversion Hwf as [|? ? Hi Hwf']; subst. destruct i as [h sz| |].
+    + cbn [wf_item] in Hi. destruct (by_height H h) as [x|].
+      * cbn [andb] in Hg. destruct (blocks_byte_limit <? bytes + sz) eqn:E.
+        -- inversion Hg; subst. lia.
+        -- destruct (MaxBlockFetch <=? n + 1).
+           ++ inversion Hg; subst. lia.
+           ++ specialize (IH (n + 1) (bytes + sz) (x :: acc) l tot Hwf' ltac:(lia) Hg). lia.
+      * apply (IH n bytes acc l tot); auto.
+    + apply (IH n bytes acc l tot); auto.
+    + discriminate.
 Qed.
 
-Lemma gather_blocks_not_hashes H items : forall n acc l, gather_blocks H items n acc <> OHashes l.
+Lemma gather_blocks_no_panic bc H items : forall n bytes acc, gather_blocks bc H items n bytes acc <> OPanic.
 Proof.
-  induction items as [|i items IH]; intros n acc l; cbn [gather_blocks]; [discriminate|].
-  destruct i as [h| |]; try apply IH; try discriminate.
-  destruct (by_height H h); [|apply IH]. destruct (MaxBlockFetch <=? n + 1); [discriminate|apply IH].
+  induction items as [|i items IH]; intros n bytes acc; cbn [gather_blocks]; [discriminate|].
+  destruct i as [h sz| |]; try apply IH; try discriminate.
+  destruct (by_height H h); [|apply IH]. destruct (bc && _); [discriminate|]. destruct (MaxBlockFetch <=? n + 1); [discriminate|apply IH].
 Qed.
 
-Lemma undecodable_cases code : undecodable code <> OPanic /\ (forall l, undecodable code <> OHashes l) /\ (forall l, undecodable code <> OBlocks l).
+Lemma gather_blocks_not_hashes bc H items : forall n bytes acc l, gather_blocks bc H items n bytes acc <> OHashes l.
+Proof.
+  induction items as [|i items IH]; intros n bytes acc l; cbn [gather_blocks]; [discriminate|].
+  destruct i as [h sz| |]; try apply IH; try discriminate.
+  destruct (by_height H h); [|apply IH]. destruct (bc && _); [discriminate|]. destruct (MaxBlockFetch <=? n + 1); [discriminate|apply IH].
+Qed.
+
+Lemma undecodable_cases code : undecodable code <> OPanic /\ (forall l, undecodable code <> OHashes l) /\ (forall l t, undecodable code <> OBlocks l t).
 Proof.
   unfold undecodable.
   destruct (code =? StatusMsg); [repeat split; intros; discriminate|].
@@ -124,7 +146,7 @@ Proof.
 Qed.
 
 (* ------------------------------------------------------------ main statements *)
-Lemma size_gate nc sh H size r : ProtocolMaxMsgSize < size -> handle_gen nc sh H size r = OErr ErrMsgTooLarge.
+Lemma size_gate nc sh bc H size r : ProtocolMaxMsgSize < size -> handle_gen nc sh bc H size r = OErr ErrMsgTooLarge.
 Proof. intros. unfold handle_gen. replace (ProtocolMaxMsgSize <? size) with true by lia. reflexivity. Qed.
 
 Lemma handle_size_irrelevant H size r : size <= ProtocolMaxMsgSize -> handle H size r = handle H 0 r.
@@ -178,7 +200,7 @@ Proof.
       exfalso. eapply (proj1 (proj2 (undecodable_cases code))). exact Hh.
 Qed.
 
-Lemma blocks_bounded H size r l : handle H size r = OBlocks l -> Z.of_nat (length l) <= MaxBlockFetch.
+Lemma blocks_bounded H size r l tot : handle H size r = OBlocks l tot -> Z.of_nat (length l) <= MaxBlockFetch.
 Proof.
   intros Hh. unfold handle, handle_gen in Hh.
   destruct (ProtocolMaxMsgSize <? size); [discriminate|].
@@ -188,7 +210,24 @@ Proof.
     + destruct (l0 <? number); [discriminate|]. destruct (hashes_from_hash true H (by_height H l0) (clamp MaxHashFetch amount)); discriminate.
     + destruct (H <? number); [discriminate|].
       destruct (hashes_from_hash true H (by_height H H) _); discriminate.
-  - eapply (gather_blocks_spec H items 0 []); try reflexivity; try (unfold MaxBlockFetch; lia). exact Hh.
+  - eapply (gather_blocks_spec true H items 0 0 []); try reflexivity; try (unfold MaxBlockFetch; lia). exact Hh.
+  - exfalso. eapply (proj2 (proj2 (undecodable_cases code))). exact Hh.
+Qed.
+
+(* the 10 MiB clause for replies: the momentums of a blocks reply take at most ProtocolMaxMsgSize - 16 bytes, so the
+   message (list header <= 9 bytes) stays within ProtocolMaxMsgSize *)
+Lemma blocks_bytes_bounded H size r l tot : wf_req H r -> handle H size r = OBlocks l tot -> 0 <= tot <= ProtocolMaxMsgSize - 16.
+Proof.
+  intros Hwf Hh. unfold handle, handle_gen in Hh.
+  destruct (ProtocolMaxMsgSize <? size); [discriminate|].
+  destruct r as [|h amount|number amount|items|code|code|code]; try discriminate.
+  - destruct (hashes_from_hash true H h (clamp MaxHashFetch amount)); discriminate.
+  - destruct (by_height H (u64 (number + clamp MaxHashFetch amount - 1))) as [l0|].
+    + destruct (l0 <? number); [discriminate|]. destruct (hashes_from_hash true H (by_height H l0) (clamp MaxHashFetch amount)); discriminate.
+    + destruct (H <? number); [discriminate|].
+      destruct (hashes_from_hash true H (by_height H H) _); discriminate.
+  - cbn [wf_req] in Hwf. pose proof (gather_blocks_bytes H items 0 0 [] l tot Hwf ltac:(unfold blocks_byte_limit, ProtocolMaxMsgSize; lia) Hh) as Hb.
+    unfold blocks_byte_limit in Hb. lia.
   - exfalso. eapply (proj2 (proj2 (undecodable_cases code))). exact Hh.
 Qed.
 
@@ -203,15 +242,24 @@ Proof.
 Qed.
 
 (* ------------------------------------------------------------ findings F2 / F3 (fixed in /repo) *)
-Lemma unknown_hash_panic_refuted : exists H amount, 1 <= H /\ in_u64 amount /\ handle_gen false true H 0 (RGetHashes None amount) = OPanic.
+Lemma unknown_hash_panic_refuted : exists H amount, 1 <= H /\ in_u64 amount /\ handle_gen false true true H 0 (RGetHashes None amount) = OPanic.
 Proof. exists 5, 1. vm_compute. repeat split; congruence. Qed.
 
 Lemma hashes_unbounded_refuted :
   exists H number amount l, in_u64 number /\ in_u64 amount /\
-    handle_gen true false H 0 (RGetHashesFromNumber number amount) = OHashes l /\ MaxHashFetch < Z.of_nat (length l).
+    handle_gen true false true H 0 (RGetHashesFromNumber number amount) = OHashes l /\ MaxHashFetch < Z.of_nat (length l).
 Proof.
   exists 600, 0, 0. eexists. split; [vm_compute; split; congruence|]. split; [vm_compute; split; congruence|].
   split; [vm_compute; reflexivity|]. vm_compute. reflexivity.
+Qed.
+
+(* before fix 580df5c: the same heavy momentum requested 128 times *)
+Lemma blocks_bytes_unbounded_refuted :
+  exists H items l tot, Forall (wf_item H) items /\ handle_gen true true false H 0 (RGetBlocks items) = OBlocks l tot /\ ProtocolMaxMsgSize < tot.
+Proof.
+  exists 5, (repeat (IKnown 5 1679821) 128). eexists. eexists. split.
+  - apply Forall_forall. intros x Hin. apply repeat_spec in Hin. subst x. cbn. lia.
+  - split; [vm_compute; reflexivity|]. vm_compute. reflexivity.
 Qed.
 
 (* ------------------------------------------------------------ handshake *)
@@ -241,11 +289,20 @@ Proof. intros H. rewrite <- Z.lxor_lor by exact H. symmetry. apply Z.add_nocarry
 Lemma readInt24_range b0 b1 b2 r : 0 <= b0 < 256 -> 0 <= b1 < 256 -> 0 <= b2 < 256 ->
   readInt24 (b0 :: b1 :: b2 :: r) = Ok (b0 * 65536 + b1 * 256 + b2).
 Proof.
-  intros H0 H1 H2. unfold readInt24. f_equal.
+  intros H0 H1 H2. unfold readInt24. cbn [nth]. unfold Pure.readInt24.
+  assert (Hlen : 3 <= Z.of_nat (length (b0 :: b1 :: b2 :: r))) by (cbn [length]; lia).
+  replace ((0 <=? 2) && (2 <? Z.of_nat (length (b0 :: b1 :: b2 :: r)))) with true by lia.
+  replace ((0 <=? 1) && (1 <? Z.of_nat (length (b0 :: b1 :: b2 :: r)))) with true by lia.
+  replace ((0 <=? 0) && (0 <? Z.of_nat (length (b0 :: b1 :: b2 :: r)))) with true by lia.
+  cbn [guard]. f_equal.
+  rewrite (wrapU_small 32 b2), (wrapU_small 32 b1), (wrapU_small 32 b0) by (change (2 ^ 32) with 4294967296; lia).
   rewrite !Z.shiftl_mul_pow2 by lia.
-  rewrite !wrapU_small by (change (2 ^ 32) with 4294967296; change (2 ^ 8) with 256; change (2 ^ 16) with 65536; lia).
+  rewrite (wrapU_small 32 (b1 * 2 ^ 8)) by (change (2 ^ 32) with 4294967296; change (2 ^ 8) with 256; lia).
+  rewrite (wrapU_small 32 (b0 * 2 ^ 16)) by (change (2 ^ 32) with 4294967296; change (2 ^ 16) with 65536; lia).
   rewrite (lor_add b2) by (apply land_low_high; [lia|change (2 ^ 8) with 256; lia]).
+  rewrite (wrapU_small 32 (b2 + b1 * 2 ^ 8)) by (change (2 ^ 32) with 4294967296; change (2 ^ 8) with 256; lia).
   rewrite lor_add by (apply land_low_high; [lia|change (2 ^ 8) with 256; change (2 ^ 16) with 65536; lia]).
+  rewrite wrapU_small by (change (2 ^ 32) with 4294967296; change (2 ^ 8) with 256; change (2 ^ 16) with 65536; lia).
   change (2 ^ 8) with 256. change (2 ^ 16) with 65536. lia.
 Qed.
 
